@@ -224,6 +224,19 @@ CLAIMED = {
         "grids); operations that mix data of several items are outside the statement and not constrained",
         "DESIGN.md 3 C19",
     ),
+    "C20": (
+        "spec/Grad.tla, spec/MC_Grad.tla, spec/Trace_Grad.tla",
+        "layer 1: exact rational derivatives of the operations whose restriction to a line has degree <= 2 (bilinear sampling w.r.t. coordinates and image, "
+        "affine maps of points, sums of squares, cubic B-spline coefficients) and of the Dice overlap; TLC proves that on this class the central difference "
+        "quotient equals the derivative for every in-cell step, and emits every leaf, compared with torch.autograd to 1e-9; layer 2: directional "
+        "derivatives of every transform (points, disp, inverse, image/point-set transformer), functional operation and loss recorded with two central "
+        "difference quotients and judged by the acceptance rule written in Trace_Grad (Richardson estimate, kink exclusion, round-off allowance)",
+        "31 exact leaves x 4 sampling APIs; 261 scalar functions (16 transform kinds x 6 modes, 13 functional operations, every loss of losses.functional) "
+        "in 2-D and 3-D x all parameter tensors x 2 (6 thorough) random directions on a 5-level step ladder",
+        "trusted: TLC; torch.autograd as the quantity under test; float64 inputs, float32 sampling grids inside the library (3 % allowance for operations "
+        "summed over a sampling grid, 5e-4 otherwise); MI/NMI evaluated with an explicit histogram range",
+        "DESIGN.md 3 C20",
+    ),
 }
 
 PENDING_REASON = "check not built yet in this revision (planned, see DESIGN.md section 9); not claimed until it runs clean"
